@@ -39,7 +39,7 @@ impl Randomness {
         r.shifted_rand is Some == has_degree_bound,
         has_degree_bound ==> r.shifted_rand->Some_0@ == draw(old(rng).id@, old(rng).pos@ + 1),   // name=ipa.Randomness.rand.shifted_blinding_is_an_independent_draw props=C07
         final(rng).pos@ == old(rng).pos@ + (if has_degree_bound { 2nat } else { 1nat }),          // name=ipa.Randomness.rand.one_draw_per_blinded_commitment props=C07
-        old(rng).present@,
+        old(rng).present@, final(rng).present == old(rng).present, final(rng).id == old(rng).id,
 //@body
 //@end
 }
